@@ -246,11 +246,17 @@ fn run_e2e(a: &[RegOp], b: &[RegOp], equal: bool, reconnect: bool) -> Option<Fai
             }
         });
     }
-    let exchange = |server: &mut App, client: &mut App, id: Entity| {
+    // a second connected peer whose undecodable bytes arrive on the same channel, in the same server frame, in front of
+    // every message of the client under test (seed C14r6)
+    let peer = if a.len() % 3 == 0 { Some(server.world_mut().spawn(ConnectedClient { max_size: 1200 }).id()) } else { None };
+    let exchange = move |server: &mut App, client: &mut App, id: Entity| {
         for _ in 0..4 {
             client.update();
             let sent: Vec<_> = client.world_mut().resource_mut::<RepliconClient>().drain_sent().collect();
             for (ch, m) in sent {
+                if let Some(p) = peer {
+                    server.world_mut().resource_mut::<RepliconServer>().insert_received(p, ch, vec![0xffu8, 0xff, 0xff, 0xff, 0xff, 0xff]);
+                }
                 server.world_mut().resource_mut::<RepliconServer>().insert_received(id, ch, m);
             }
             server.update();
